@@ -43,3 +43,10 @@ Theorem C20_route_fields_total :
   forall prefix parsed, (exists r, dst_of_route prefix parsed = Ok r) /\ (exists v, route_vrf parsed = Ok v).
 Proof. intros prefix parsed. split; [apply dst_of_route_total_proved | apply route_vrf_total_proved]. Qed.
 Print Assumptions C20_route_fields_total.
+
+(* the Linux parser (ParseConfig, parseRoutes, parseIPTables of go/pkg/linux/parse.go):
+   for every text the outcome is acceptance or one of its eight diagnostics *)
+From NA Require Import Robust.LinuxParse Robust.LinuxProofs.
+Theorem C20_linux_parse_never_runtime_panic : forall text, parse_linux text <> LPanic.
+Proof. exact parse_linux_total_proved. Qed.
+Print Assumptions C20_linux_parse_never_runtime_panic.
